@@ -501,6 +501,7 @@ DevNeeds(x) ==
     [] x \in {"DeclaredArrayElemUnvalidated", "ArrayItemConstraintsIgnored"} -> {"items"}
     [] x = "RequiredUndeclaredIgnored" -> {"required"}
     [] x = "UntypedPropertiesUnvalidated" -> {"properties", "required"}
+    [] x = "CrossBranchLocalRefRebinds" -> {"crossbranchonly"}      \* recorded with its witness only: never a candidate
     [] x \in {"AddlIntTruncates", "AddlValuesTypedOnly", "AddlKeyEqualsFieldNameDropped", "AddlEmptyKeyDropped",
               "UntypedAddlNotCollected", "AddlMapDefaultDropped", "AddlNullPanics"} -> {"additionalProperties"}
     [] x \in {"Float64Bounds", "IntBoundTruncated"} -> {"minimum", "maximum", "exclusiveMinimum", "exclusiveMaximum"}
